@@ -41,8 +41,33 @@ def replay_file(path):
     return 0
 
 
+def _sweep_one(shard_d):
+    """all values of the single byte-valued argument of a window harness, natively; returns the failing ones"""
+    alphabet = shard_d['params'].get('ALPHABET') or list(range(256))
+    failing, ran = [], 0
+    for val in alphabet:
+        res = run_native(shard_d, {'val': val})
+        ran += 1
+        if res['outcome'] in ('false', 'exception'):
+            failing.append([val, res])
+            if len(failing) >= 4:
+                break
+    return shard_d['label'], ran, failing
+
+
+def sweep(shards):
+    import multiprocessing  # pylint: disable=import-outside-toplevel
+    from symcheck.harness import registry  # pylint: disable=import-outside-toplevel
+    registry.import_all()
+    with multiprocessing.get_context('fork').Pool(16) as pool:
+        return pool.map(_sweep_one, shards, chunksize=1)
+
+
 def main():
     from symcheck.api import decode_args  # pylint: disable=import-outside-toplevel
+    if '--sweep' in sys.argv:
+        print(json.dumps(sweep(json.loads(sys.stdin.read())['shards'])))
+        return
     data = json.loads(sys.stdin.read())
     res = run_native(data['shard'], decode_args(data['args']))
     print(json.dumps(res))
